@@ -291,6 +291,7 @@ func main() {
 		return
 	}
 	c := core.New("C07")
+	c.ReplayFallback()
 	swagger := c.BuildSwagger()
 	self, _ := os.Executable()
 	rng := rand.New(rand.NewSource(c.Seed))
